@@ -53,6 +53,10 @@ def concretise(p, workdir, idx):
     return argv + ["--show-config"], env, path
 
 
+def lexer_strip(b):
+    return re.sub(rb"\x1b\[[0-9;]*m", b"", b).decode("utf-8", "replace")
+
+
 def shown_ln(out):
     for line in lexer.strip_ansi(out).decode("utf-8", "replace").split("\n"):
         m = re.match(r"^\s*line-numbers\s*=\s?(true|false)\s*$", line)
@@ -151,6 +155,45 @@ def run(tier):
         short = {k: v for k, v in p.items() if v not in (False, [], "none")}
         V.violation(f"{f['why']}:{json.dumps(short, sort_keys=True)}", f"{f['why']}: placement {short} resolved to {vals}",
                     {"placement": p, "values": vals})
+    # boolean options overridden through GIT_CONFIG_PARAMETERS, in every spelling git accepts for a boolean
+    TRUE_S, FALSE_S = ["true", "yes", "on", "1", "True", "YES", "On"], ["false", "no", "off", "0", "False", "NO", "Off"]
+    bjobs = []
+    for flag in ("line-numbers", "side-by-side", "navigate", "keep-plus-minus-markers"):
+        for gcp in ("none", "true", "false"):
+            for filev in ("none", "true", "false"):
+                for feat in ("none", "true"):
+                    for sp in range(len(TRUE_S) if gcp != "none" else 1):
+                        bjobs.append((flag, gcp, filev, feat, sp))
+    if tier == "quick":
+        bjobs = rnd.sample(bjobs, 160)
+    bdir = os.path.join(core.scratch(), "c13bool")
+    os.makedirs(bdir, exist_ok=True)
+
+    def bone(ij):
+        i, (flag, gcp, filev, feat, sp) = ij
+        path = os.path.join(bdir, f"cfg{i}")
+        with open(path, "w") as fh:
+            fh.write("[delta]\n" + (f"    {flag} = {filev}\n" if filev != "none" else "") + ("    features = featq\n" if feat != "none" else "")
+                     + (f'[delta "featq"]\n    {flag} = {feat}\n' if feat != "none" else ""))
+        env = {}
+        if gcp != "none":
+            env["GIT_CONFIG_PARAMETERS"] = f"'delta.{flag}'='{(TRUE_S if gcp == 'true' else FALSE_S)[sp]}'"
+        r = core.run_delta(["--config", path, "--show-config"], b"", env=env, prefix_args=())
+        m = re.search(r"^\s*" + re.escape(flag) + r"\s*=\s*(true|false)\s*$", lexer_strip(r.out), re.M)
+        return r, (m.group(1) == "true") if m else None
+    bres = core.pmap(bone, list(enumerate(bjobs)))
+    bevents = []
+    for i, ((flag, gcp, filev, feat, sp), (r, shown)) in enumerate(zip(bjobs, bres)):
+        if shown is None:
+            raise core.ToolError(f"--show-config did not report {flag}: exit {r.code} {r.err[:200]!r}")
+        bevents.append({"run": i, "gcp": gcp, "file": filev, "feat": feat, "shown": shown})
+    bfailed, btr = tlc.validate_trace("Trace_BoolOverride", bevents)
+    log(f"[{PID}] {len(bevents)} boolean overrides (GIT_CONFIG_PARAMETERS, git's spellings) judged by TLC, {len(bfailed)} rejected")
+    for f in bfailed:
+        flag, gcp, filev, feat, sp = bjobs[f["run"]]
+        spelled = (TRUE_S if gcp == "true" else FALSE_S)[sp] if gcp != "none" else "-"
+        V.violation(f"bool-override:{flag}:{gcp}:{filev}:{feat}:{spelled.lower()}", f"--{flag}: GIT_CONFIG_PARAMETERS says '{spelled}', the file's [delta] section "
+                    f"{filev}, an enabled feature {feat}: --show-config reports {bres[f['run']][1]}", {"run": bres[f["run"]][0].to_json()})
     rc = V.finish()
     core.write_evidence(PID, tier, "model_checking", {
         "states": mc.distinct, "transitions": mc.generated, "traces_validated_against_impl": len(events),
